@@ -24,13 +24,16 @@ impl Digest for TDigest {
     }
 }
 
-/// partially ordered version: the diamond (0,0) < (0,1),(1,0) < (1,1); (0,1) || (1,0)
+/// partially ordered version: the diamond (0,0) < (0,1),(1,0) < (1,1); (0,1) || (1,0); plus an isolated element (9,9)
 #[derive(Debug, Clone, Copy, PartialEq, Eq, Serialize, Deserialize)]
 struct PV(u8, u8);
 impl PartialOrd for PV {
     fn partial_cmp(&self, o: &Self) -> Option<Ordering> {
         if self == o {
             Some(Ordering::Equal)
+        } else if self.0 == 9 || o.0 == 9 {
+            // the isolated element: incomparable to everything else (like NaN, but equal to itself)
+            None
         } else if self.0 <= o.0 && self.1 <= o.1 {
             Some(Ordering::Less)
         } else if self.0 >= o.0 && self.1 >= o.1 {
@@ -40,7 +43,7 @@ impl PartialOrd for PV {
         }
     }
 }
-const DIAMOND: [PV; 4] = [PV(0, 0), PV(0, 1), PV(1, 0), PV(1, 1)];
+const DIAMOND: [PV; 5] = [PV(0, 0), PV(0, 1), PV(1, 0), PV(1, 1), PV(9, 9)];
 
 /// requirement = subset of the version domain (bitmask over domain index) + metadata predicate
 struct Req<V> {
@@ -303,7 +306,7 @@ pub fn run(args: &Args) {
     let max_len = if args.thorough() { 5 } else { 4 };
     // (i) total order, versions {1,2,3}
     let k_total = kinds(3);
-    let k_partial = kinds(4);
+    let k_partial = kinds(5);
     let seq_total = sequences(&k_total, max_len);
     let seq_partial = sequences(&k_partial, if args.thorough() { 4 } else { 3 });
     let mut queries = 0u64;
@@ -314,7 +317,7 @@ pub fn run(args: &Args) {
     }).collect();
     queries += seq_total.len() as u64 * 2 * 16;
     let r2: Vec<_> = seq_partial.par_iter().map(|s| run_one(s, "partial_resolve(diamond)")).collect();
-    queries += seq_partial.len() as u64 * 32;
+    queries += seq_partial.len() as u64 * 64;
     for v in r1.into_iter().chain(r2).flatten() {
         rep.violation(&v.0, v.1, v.2);
     }
